@@ -80,6 +80,9 @@ def run(case, out):
     out.cls("large:" + case["api"], "large:" + case["agg"]["name"], f"large:entries>=2^{int(np.log2(m * offs[-1]))}",
             "large:unwrapped" if case["unwrapped"] else "large:recorded")
     pre = sum(a @ w for a, w in zip(As, ws))
+    # rounding of the n-term dot products behind `pre` (statistical growth sqrt(n), factor 16): everything downstream of
+    # tanh(pre) inherits it (a thorough run met 290 eps on a task gradient with n = 2.4e6)
+    tolF = 16 * eps_of(dtype) * np.sqrt(offs[-1]) * float(np.linalg.norm(A, axis=1).max()) * float(np.sqrt(np.mean(W**2)))
     kw = {"retain_graph": case["retain"]} if "retain" in case else {}
     if case["api"] == "backward":
         y = torch.tanh(pre)
@@ -106,7 +109,7 @@ def run(case, out):
         for i in range(m):
             want = float(C[i] @ f64)
             if out.check(ts[i].grad is not None, "large:task-grad-missing", f"task {i}"):
-                out.within(abs(float(ts[i].grad) - want), 64 * eps_of(dtype) * (np.abs(C[i]).sum() + 1), "large:task-gradient",
+                out.within(abs(float(ts[i].grad) - want), (64 * eps_of(dtype) + tolF) * (np.abs(C[i]).sum() + 1), "large:task-gradient",
                            f"task {i}: {float(ts[i].grad)} vs {want}")
     if "retain" in case:
         # the graph (tanh saves its output) must afterwards be in the state torch.autograd.backward would leave it in
@@ -123,6 +126,7 @@ def run(case, out):
                       f"retain_graph={case['retain']} but a further differentiation through the graph {'succeeds' if usable else 'fails'}")
     jmax = float(np.abs(J).max())
     tolJ = 256 * eps_of(dtype) * max(jmax, float(np.abs(A).max()) * (float(np.abs(C).sum(1).max() * np.abs(T).max()) if case["api"] != "backward" else 1.0))
+    tolJ += 2 * tolF * jmax
     incs = []
     for w, b in zip(ws, before):
         if not out.check(w.grad is not None and w.grad.shape == w.shape, "large:grad-missing", "an input has no .grad of its shape"):
